@@ -155,7 +155,7 @@ func (ws *WritingState) setExperimentStateLabel(timestamp time.Time, stateLabel 
 		// write header
 		_, err1 := ws.experimentStateFile.WriteString("# unix time in nanoseconds, state label\n")
 		if err1 != nil {
-			return err
+			return fmt.Errorf("cannot write header of %v: %v", ws.ExperimentStateFilename, err1)
 		}
 	}
 	ws.ExperimentStateLabel = stateLabel
